@@ -2,6 +2,7 @@
 //! Protocol: one JSON request per stdin line, one JSON response per stdout line.
 mod cmds;
 mod cmds2;
+mod cmds3;
 mod emit;
 mod ilread;
 
